@@ -4,15 +4,15 @@
    is read back through the union, modifying part of a base-only file keeps all its other bytes,
    and a failed call leaves the view unchanged.
    Statements only; proofs in Proofs/CowViewProof.v, Proofs/UnionProof.v, Proofs/CopyUpProof.v,
-   Proofs/CowLayer.v, Proofs/CowFileOps.v, Proofs/CopyUpFull.v, Proofs/CowWriteProof.v.
+   Proofs/CowLayer.v, Proofs/CowFileOps.v, Proofs/CopyUpFull.v, Proofs/CowWriteProof.v, Proofs/CowFailedProof.v.
    Sections 1-4 and the refusals of section 6 are over two ARBITRARY inner filesystems (any step functions);
-   section 5 (copy-up, write / read back) is for MemMapFs on both sides, for EVERY
+   section 5 (copy-up, write / read back) and C06_failed_call_view_unchanged are for MemMapFs on both sides, for EVERY
    overlay state satisfying the invariant WF of C01 (every state a well-formed program reaches:
    C01_index_mirrors_map, C01_step_preserves_WF) and every rooted name in any spelling. *)
 From AF Require Import Lib.Bytes Lib.Path Lib.Ops Gen.Consts Model.MemFile Model.ByteFile Model.MemFs Model.WfOps Model.ReadOnly
   Model.Union Model.Cow Model.CowView
   Proofs.MemFileProof Proofs.MemFsPath Proofs.MemFsBasics Proofs.MemFsWF Proofs.MemFsInv Proofs.UnionProof Proofs.CowViewProof Proofs.CopyUpProof
-  Proofs.CowLayer Proofs.CowFileOps Proofs.CopyUpFull Proofs.CowWriteProof.
+  Proofs.CowLayer Proofs.CowFileOps Proofs.CopyUpFull Proofs.CowWriteProof Proofs.CowFailedProof.
 Local Open Scope Z_scope.
 
 (* ---- 1. lookup: overlay's entry if it has one, else the base's ---- *)
@@ -393,18 +393,91 @@ Theorem C06_read_overlay_file : forall sb sl tbl name g d mt ops,
 Proof. exact cow_read_overlay_file. Qed.
 Print Assumptions C06_read_overlay_file.
 
-(* ---- 6. refused calls leave the view unchanged ---- *)
-(* PARTIAL.  Full statement: every failed call leaves the union view unchanged.  Proved, for
-   arbitrary inner filesystems: the refusals decided by CopyOnWriteFs itself — Rename of a name only
-   the base has (EPERM), Remove/RemoveAll when the overlay's own call fails (the union call fails,
-   e.g. EPERM for a base-only name), Mkdir of ANY name the union's own Stat finds (in the overlay, or
-   in the base when the overlay says "does not exist"; directory or file: a PathError wrapping
-   EEXIST, as copyOnWriteFs.go does since cow_mkdir_checks_union = 1) — make no inner
-   call except Stat (and the overlay's own failed Remove), change no handle, and hence change
-   neither view, given only that Stat changes nothing observable and a FAILED overlay call leaves
-   the overlay's view as it was.  Missing: failures after a successful copy-up (the overlay has
-   gained a copy with identical content; needs the union-view function over both models). *)
-Theorem C06_failed_call_view_unchanged_partial :
+(* ---- 6. a failed call leaves the view unchanged ---- *)
+(* the union view (Model/CowView.v): the overlay's entry if the overlay has one, otherwise the base's;
+   an entry is the kind and, for a regular file, the bytes (mode and mtime are not part of it) *)
+Theorem C06_uview_meaning : forall sb sl k,
+  uview sb sl k = match cview sl k with Some e => Some e | None => cview sb k end.
+Proof. reflexivity. Qed.
+Print Assumptions C06_uview_meaning.
+
+(* the hypotheses of the theorem below, spelled out.  op_names_abs: every path argument begins with the
+   separator.  union_handles_inert: the layer handle of every union (directory) handle of the table is
+   read-only or closed (CopyOnWriteFs.Open opens both directories read-only; C06_ex_union_handle_inert).
+   cow_call_ok: for Rename, the overlay's own Rename is a well-formed call in the sense of C01 or the
+   overlay lacks the old name; for the calls that may copy up (Create, OpenFile, Chmod, Chown, Chtimes):
+   IF the base holds a directory under the name, that node carries no bytes (dir_no_bytes — true of every
+   directory no program has written into through a handle; C06_failed_call_dir_with_bytes_refuted shows
+   what happens otherwise). *)
+Theorem C06_op_names_abs_meaning : forall o,
+  op_names_abs o = match o with
+                   | Create p | Mkdir p _ | MkdirAll p _ | Open p | OpenFile p _ _ | Remove p | RemoveAll p | Stat p
+                   | Chmod p _ | Chown p _ _ | Chtimes p _ => is_rooted p
+                   | Rename p q => is_rooted p && is_rooted q
+                   | _ => true
+                   end.
+Proof. reflexivity. Qed.
+Print Assumptions C06_op_names_abs_meaning.
+
+Theorem C06_failed_call_hyps_meaning : forall sb sl tbl o,
+  (union_handles_inert sl tbl <->
+   forall i u lh h, nth_error tbl i = Some (HU u) -> ulayer u = Some lh -> nth_error (mhandles sl) lh = Some h ->
+     hro h || hclosed h = true) /\
+  (cow_call_ok sb sl o <->
+   match o with
+   | Rename p q => WfOps.wf_op sl (Rename p q) = true \/ lookup sl (normalize_path p) = None
+   | Create p | OpenFile p _ _ | Chmod p _ | Chown p _ _ | Chtimes p _ =>
+       forall f nd, lookup sb (normalize_path p) = Some f -> get_node sb f = Some nd -> ndir nd = true -> ndata nd = []
+   | _ => True
+   end).
+Proof. intros sb sl tbl o. split; [reflexivity | destruct o; reflexivity]. Qed.
+Print Assumptions C06_failed_call_hyps_meaning.
+
+(* Full statement: every failed call leaves the union view unchanged.  Through cow(mem,mem), for EVERY
+   well-formed base and overlay (WF, C01), a base without writable open handles (the hypothesis of C05), EVERY
+   handle table, EVERY one of the thirteen Fs methods with absolute names and EVERY method of EVERY handle
+   (base, overlay and union handles): if the call returns an error, the base's stored filesystem is what it
+   was and the union view of EVERY path is what it was.  This includes the failures AFTER a copy-up — e.g.
+   OpenFile(O_CREATE|O_EXCL) of a base-only file answers EEXIST after the overlay has gained the file — and
+   after a HALF-DONE one — Chtimes or OpenFile(O_RDWR) of a base-only directory: copyFile creates a regular
+   file in the overlay, finds 0 bytes instead of 42, removes it again and reports EIO; in both cases the overlay
+   HAS changed (ancestor directories the base also has; a copy with identical bytes), the view has not.
+   Named exclusions: relative names; Rename whose overlay-level call is not well-formed while the overlay holds
+   the old name (MemFsRename proves success only for well-formed calls); a base DIRECTORY that carries bytes
+   (refuted below). *)
+Theorem C06_failed_call_view_unchanged : forall sb sl tbl o,
+  WF sb -> WF sl -> all_inert sb -> union_handles_inert sl tbl ->
+  op_names_abs o = true -> cow_call_ok sb sl o ->
+  res_is_err (snd (cow_step m_step m_step (sb, sl, tbl) o)) = true ->
+  let st' := fst (cow_step m_step m_step (sb, sl, tbl) o) in
+  fs_view (fst (fst st')) = fs_view sb /\
+  forall k, uview (fst (fst st')) (snd (fst st')) k = uview sb sl k.
+Proof. exact cow_failed_call_view. Qed.
+Print Assumptions C06_failed_call_view_unchanged.
+
+(* the excluded corner is a real one.  MemMapFs accepts OpenFile(dir, O_RDWR) and Write through that handle;
+   the directory node then carries bytes while Stat keeps reporting the fixed size 42.  With exactly 42 bytes
+   copyFile's size check passes: OpenFile("/d", O_RDWR|O_CREATE|O_EXCL) through the union answers EEXIST and
+   the union now shows "/d" — a directory before the call — as a regular file of 42 bytes.
+   corpus/C06/dir-with-bytes.case replays this against the implementation on every run (it does the same). *)
+Theorem C06_failed_call_dir_with_bytes_refuted :
+  exists sb sl tbl o k,
+    WF sb /\ WF sl /\ all_inert sb /\ union_handles_inert sl tbl /\ op_names_abs o = true /\
+    ~ dir_no_bytes sb (normalize_path rf_d) /\
+    res_is_err (snd (cow_step m_step m_step (sb, sl, tbl) o)) = true /\
+    uview sb sl k = Some (true, []) /\
+    uview (fst (fst (fst (cow_step m_step m_step (sb, sl, tbl) o)))) (snd (fst (fst (cow_step m_step m_step (sb, sl, tbl) o)))) k
+      = Some (false, repeat 120%N 42).
+Proof. exact failed_call_dir_with_bytes_refuted. Qed.
+Print Assumptions C06_failed_call_dir_with_bytes_refuted.
+
+(* the refusals decided by CopyOnWriteFs itself, for ARBITRARY inner filesystems (any step functions, any
+   notion of view on either side): Rename of a name only the base has (EPERM), Remove/RemoveAll when the
+   overlay's own call fails, Mkdir of ANY name the union's own Stat finds (a PathError wrapping EEXIST, as
+   copyOnWriteFs.go does since cow_mkdir_checks_union = 1) make no inner call except Stat (and the overlay's
+   own failed Remove), change no handle, and hence change neither view, given only that Stat changes nothing
+   observable and a FAILED overlay call leaves the overlay's view as it was *)
+Theorem C06_refusals_any_layers :
   forall (B L VB VL : Type) (bstep : B -> op -> B * res) (lstep : L -> op -> L * res) (vb : B -> VB) (vl : L -> VL),
   (forall s p, vb (fst (bstep s (Stat p))) = vb s) ->
   (forall s p, vl (fst (lstep s (Stat p))) = vl s) ->
@@ -420,7 +493,7 @@ Theorem C06_failed_call_view_unchanged_partial :
      snd (cow_step bstep lstep (sb, sl, tbl) (Mkdir p perm)) = RErr (EW KExist) /\
      same_view vb vl (sb, sl, tbl) (fst (cow_step bstep lstep (sb, sl, tbl) (Mkdir p perm)))).
 Proof. exact @cow_refusals_view. Qed.
-Print Assumptions C06_failed_call_view_unchanged_partial.
+Print Assumptions C06_refusals_any_layers.
 
 (* the exact outcome for the most common refusals *)
 Theorem C06_rename_base_only_eperm :
@@ -560,3 +633,43 @@ Example C06_ex_deep_write_read_back :
      RHandle 1; RData [104;101;108;108;111;32;87;79;114;108;100;33]%N None;
      RInfo (mkFi [98]%N true 42 0 0)].
 Proof. vm_compute. reflexivity. Qed.
+
+(* ---- non-vacuity of the hypotheses of C06_failed_call_view_unchanged ---- *)
+Example C06_ex_base_inert : all_inert c06_base /\ all_inert c06_deep_base.
+Proof.
+  split; intros i h Hh; (destruct i as [|[|i]]; vm_compute in Hh; [inversion Hh; reflexivity | try (inversion Hh; reflexivity); try discriminate | try discriminate]).
+  destruct i; discriminate.
+Qed.
+(* the union handle CopyOnWriteFs.Open hands out for /d (a directory in both layers) has read-only inner handles *)
+Definition c06_after_open : mst * mst * list chandle :=
+  fst (run_steps (cow_step m_step m_step) (c06_base, c06_layer, []) [Open p_d]).
+Example C06_ex_union_handle_inert :
+  snd c06_after_open = [HU (mkUF (Some 2%nat) (Some 1%nat) 0 [])] /\ union_handles_inert (snd (fst c06_after_open)) (snd c06_after_open).
+Proof.
+  assert (E : snd c06_after_open = [HU (mkUF (Some 2%nat) (Some 1%nat) 0 [])]) by (vm_compute; reflexivity).
+  split; [exact E|]. intros i u lh h Hn Hu Hh. rewrite E in Hn.
+  destruct i as [|i]; [|destruct i; discriminate Hn]. inversion Hn; subst u. cbn in Hu. inversion Hu; subst lh.
+  vm_compute in Hh. inversion Hh. reflexivity.
+Qed.
+Example C06_ex_call_ok : cow_call_ok c06_deep_base m_init (Chtimes [47;97;47;98;47;99]%N 5) /\
+                         cow_call_ok c06_base c06_layer (OpenFile p_f (Z.lor o_rdwr (Z.lor o_create o_excl)) 420).
+Proof.
+  split; intros f nd Hl Hn Hd; vm_compute in Hl; inversion Hl; subst f; vm_compute in Hn; inversion Hn; subst nd; try reflexivity; discriminate Hd.
+Qed.
+(* two failed calls that DO change the overlay: EEXIST after a complete copy-up of /d/f; EIO after the
+   half-done copy-up of the base-only directory /a/b/c (the overlay keeps /a and /a/b) — the view is the same *)
+Example C06_ex_failed_after_copy_up :
+  let st := fst (cow_step m_step m_step (c06_base, c06_layer, []) (OpenFile p_f (Z.lor o_rdwr (Z.lor o_create o_excl)) 420)) in
+  snd (cow_step m_step m_step (c06_base, c06_layer, []) (OpenFile p_f (Z.lor o_rdwr (Z.lor o_create o_excl)) 420)) = RErr (EW KExist) /\
+  cview c06_layer p_f = None /\ cview (snd (fst st)) p_f = Some (false, hello) /\
+  uview (fst (fst st)) (snd (fst st)) p_f = uview c06_base c06_layer p_f.
+Proof. cbv zeta. repeat split; vm_compute; reflexivity. Qed.
+Example C06_ex_failed_half_copy_up :
+  let o := Chtimes [47;97;47;98;47;99]%N 5 in
+  let st := fst (cow_step m_step m_step (c06_deep_base, m_init, []) o) in
+  snd (cow_step m_step m_step (c06_deep_base, m_init, []) o) = RErr (E KEIO) /\
+  cview m_init [47;97;47;98]%N = None /\ cview (snd (fst st)) [47;97;47;98]%N = Some (true, []) /\
+  cview (snd (fst st)) [47;97;47;98;47;99]%N = None /\
+  map (uview (fst (fst st)) (snd (fst st))) [[47;97]; [47;97;47;98]; [47;97;47;98;47;99]; p_deep]%N =
+  map (uview c06_deep_base m_init) [[47;97]; [47;97;47;98]; [47;97;47;98;47;99]; p_deep]%N.
+Proof. cbv zeta. repeat split; vm_compute; reflexivity. Qed.
